@@ -28,7 +28,9 @@ Definition has (r : res) (l : list res) : bool := existsb (res_eqb r) l.
 Inductive phase := PMain | PStart.
 
 Record cfg := mkCfg {
-  k_routines : nat;      (* readers actually started (Interface.routines after activate) *)
+  k_configured : nat;    (* `routines` of the configuration: Main opens this many udp listeners (Interface.writers) *)
+  k_queues : nat;        (* queues the overlay device hands out when asked for that many (it may give fewer) *)
+  k_multi : bool;        (* udp backend: SupportsMultipleReaders *)
   k_lhclient : bool;     (* lighthouses configured and we are not one: query worker *)
   k_lhupdate : bool;     (* lighthouse update worker *)
   k_ctcache : bool;      (* routine-local conntrack cache: two tickers per reader pair *)
@@ -46,6 +48,13 @@ Record row := mkRow {
 }.
 
 Definition b2n (b : bool) : nat := if b then 1 else 0.
+
+(* Interface.activate: one reader pair per routine, clamped to one when the udp backend cannot be read by several
+   goroutines, and to the number of queues the device actually opened.  The LISTENERS are not clamped: every socket
+   Main opened stays in Interface.writers and is closed by Interface.Close, reader or not. *)
+Definition k_routines (c : cfg) : nat :=
+  let r := if Nat.ltb 1 (k_configured c) && negb (k_multi c) then 1 else k_configured c in
+  Nat.min r (k_queues c).
 
 Definition table : list row := [
   mkRow 1  PMain  (fun _ => 1)                          RCtx [];       (* HandshakeManager.Run: select on ctx.Done *)
@@ -214,3 +223,7 @@ Definition lookup_queries (tab : list (N * bool * bool * N)) (t : N) (mism lh : 
   | Some (_, _, _, n) => Some n
   | None => None
   end.
+
+(* ---- the socket ledger ----------------------------------------------------------------------------------------- *)
+(* udp listeners of the node that are still open: all the configured ones until Interface.Close, none afterwards *)
+Definition udp_open (s : lst) : nat := if has RUdp (l_closed s) then 0 else k_configured (l_cfg s).
